@@ -31,6 +31,7 @@ OBLIGATIONS = {
     "der_pad": "an r needed a DER sign pad byte (top bit set)",
     "short_r": "an r shorter than 32 bytes was produced on secp256k1",
     "flag_preimage_mode": "the flag byte was checked in preimage mode",
+    "s_boundary": "a (d,z,k) whose un-negated s is n//2, n//2+1, 2^255 or a neighbour was signed on secp256k1",
     "same_draw_pairs": "two signatures were made with the same scripted draw (exempt from the nonce-reuse clause)",
 }
 BOUND = {"quick": "3 small curves complete; secp256k1 deviation <= 2", "thorough": "6 small curves complete; secp256k1 full product"}
@@ -109,7 +110,7 @@ def chk_sign(case):
     C = _curve(case)
     d, z = case["d"], case["z"]
     res, dr = with_draws(case["draws"], em.sign, d, z)
-    tag = f"sign(d={d}, z={z}) draws={dr.calls[:4]}"
+    tag = f"sign(d={d}, z={z}) draws={dr.calls[:4]}" + (f" [un-negated s = {case['s_raw']}]" if "s_raw" in case else "")
     if res[0] != "ok":
         return [("C01/sign/raised", f"{tag}: {res[1]}")]
     r, s = res[1]
@@ -235,6 +236,15 @@ def real_space(tier, seed):
         if tier == "quick" and dev > 2:
             continue
         cases.append({"d": d, "z": z, "draws": dr, "openssl": True})
+    # digests crafted so that the UN-NEGATED s lands exactly on / next to the low-S boundary and on 2^255 (a float
+    # rendering of n/2 rounds to 2^255, so an s in (n//2, 2^255] separates integer from float comparisons)
+    for d in (keys[0], keys[6]):
+        for k in (2, (n - 1) // 2):
+            r = S.mul(k, S.G)[0] % n
+            for s_raw in (n // 2, n // 2 + 1, n // 2 + 2, 2 ** 255 - 1, 2 ** 255, 2 ** 255 + 1, (n + 1) // 2, n - 1, 1,
+                          n // 2 + 2 ** 100, 2 ** 255 - 2 ** 100):
+                z = (s_raw * k - r * d) % n
+                cases.append({"d": d, "z": z, "draws": [k], "openssl": True, "s_raw": s_raw})
     return cases, cr
 
 
@@ -331,6 +341,8 @@ def run_job(job):
             acc.nontrivial += 1
             if case["draws"][0] == 0:
                 acc.ob("draw_zero")
+            if "s_raw" in case:
+                acc.ob("s_boundary")
             if case["z"] >= S.n:
                 acc.ob("digest_ge_n")
             for nm, k in cr.items():
